@@ -79,7 +79,7 @@ def gen_case(rng, ctx):
         r = gen.ranking_over(rng, names, rng.choice([0.0, 0.4]))
         ds = [[list(b) for b in r] for _ in range(rng.randint(1, 4))]
         for _ in range(30):
-            scls, sch = gen.scheme(rng, "S1 S2 S3 S3")
+            scls, sch = gen.scheme(rng, "S1 S2 S3 S3 S18")
             if sch[0][2] > 0 and sch[1][0] > 0:
                 break
         else:
@@ -108,14 +108,14 @@ def gen_case(rng, ctx):
         scls, sch = gen.scheme(rng, "S1 S1 S11 S13")
     elif kind == "big":
         _, ds = gen.dataset(rng, classes="D8 D3 D2", n=rng.randint(8, 12), mmax=6)
-        scls, sch = gen.scheme(rng, "S1 S2 S3 S3 S6 S9 S11")
+        scls, sch = gen.scheme(rng, "S1 S2 S3 S3 S6 S9 S11 S18 S18")
     elif kind == "D21":
         # profile twins under schemes where the 'both unranked' cells matter (T[5] vs B[5] on either side)
         _, ds = gen.dataset(rng, cls="D21", nmax=nmax, mmax=6)
         scls, sch = gen.scheme(rng, "S13 S13 S3 S1")
     else:
         _, ds = gen.dataset(rng, cls=kind, nmax=nmax, mmax=6)
-        scls, sch = gen.scheme(rng, "S1 S2 S3 S3 S6 S9 S11 S13")
+        scls, sch = gen.scheme(rng, "S1 S2 S3 S3 S6 S9 S11 S13 S18 S18")
     ds = libx.normalise_raw(ds)
     return {"ds": ds, "scheme": sch, "kind": kind, "scls": scls, "seqseed": rng.randrange(10 ** 6)}
 
